@@ -156,11 +156,25 @@ func c04Run(ci interface{}, rec *Rec) {
 		scen := "maxsat.New+Solve"
 		used := usedVars(m)
 		distinctModels := map[string]bool{}
+		// The same constraint values are handed over three times, and constraints with equal coefficient lists share
+		// one slice, as a caller building constraints in a loop would do: New must not modify what it is given.
+		constrs := MaxSatConstrs(m)
+		shared := map[string][]int{}
+		for i := range constrs {
+			if constrs[i].Coeffs != nil {
+				k := fmt.Sprint(constrs[i].Coeffs)
+				if sl, ok := shared[k]; ok {
+					constrs[i].Coeffs = sl
+				} else {
+					shared[k] = constrs[i].Coeffs
+				}
+			}
+		}
 		for rep := 0; rep < 3; rep++ {
 			var model maxsat.Model
 			var cost int
 			if rec.Guard(scen, func() {
-				pb := maxsat.New(MaxSatConstrs(m)...)
+				pb := maxsat.New(constrs...)
 				model, cost = pb.Solve()
 			}) {
 				return
